@@ -54,7 +54,7 @@ RULE = (
     "r.compute(); every later r.compute() (both optimize-graph settings) is bitwise R with the advertised shape/dtype; every "
     "derived program (first evaluation, re-built evaluation, other optimize-graph setting, raw/simplified/lowered/fused forms "
     "computed with optimisation off) equals its NumPy twin applied to R (exact for selections, rtol 1e-12 for "
-    "arithmetic/reductions); a pair program prev-r over two consecutive draws equals Prev-R; an in-process rebuild (same kind, "
+    "arithmetic/reductions); a pair program a-b over two consecutive draws equals A-B, alone and while r-r is alive; an in-process rebuild (same kind, "
     "seed, history, parameters, shape, chunks) and a rebuild in a fresh interpreter with another PYTHONHASHSEED give the same "
     ".name and bitwise R; arrays with equal .name have equal values (consecutive draws, alternative chunking); consecutive draws "
     "with enough entropy differ. Random/RandomChoice constructions after the base build are counted by wrapping __new__. "
@@ -63,7 +63,9 @@ RULE = (
 )
 ASSUMPTIONS = [
     "'the same realization' = the values returned by the first r.compute() of the case; no comparison with NumPy's own RNG streams (per-block seeding is dask_array's own definition)",
-    "elementwise arithmetic and reductions compared with rtol 1e-12 (relative to the largest magnitude); selections, rearrangements, r-r, where and max bitwise",
+    "elementwise arithmetic and reductions compared with rtol 1e-12 of the largest magnitude (64 eps for float32 data) plus 1024 eps * sum|R| for re-associated sums; selections, rearrangements, r-r, where and max bitwise",
+    "all observations of 'a value that is not R's' within one case (recompute, optimize-graph flag, derived program, forms) are one bucket realisation-differs|<node class>|<array-params|scalar-params>; exceptions are bucketed by type and innermost dask_array frame (or by the broken precondition when r advertises a _meta of the wrong rank)",
+    "in-process rebuild and fresh-interpreter rebuild are judged only when R was stable inside the process",
     "a distribution/kwarg combination the API rejects at call time is a rejection (counted); NotImplementedError is a refusal; any other exception at build or compute time of a derived program is a failure",
     "the consecutive-draws-differ check is applied only when the per-element collision probability bound p satisfies p**size <= 1e-12",
     "fresh-interpreter rebuilds are done for a batched sample of cases per shard (one subprocess per batch); a subprocess crash or timeout is a harness error",
